@@ -21,6 +21,102 @@ theorem value_sets_or_builds (found : Bool) :
 theorem unknown_name_is_attribute_error (c f i n : Bool) : childShortcut false c f i n = .attributeError := by
   simp [childShortcut]
 
+/-! ## spelling independence of the attribute shortcut (all keys, tables, stores, values) -/
+
+/-- the underscore spelling of a key (`font-size` → `font_size`) -/
+def under (k : String) : String := String.ofList (k.toList.map fun c => if c == '-' then '_' else c)
+
+/-- both spellings normalise to the same schema name — for every key -/
+theorem normKey_under (k : String) : normKey (under k) = normKey k := by
+  unfold normKey under
+  congr 1
+  rw [String.toList_ofList, List.map_map]
+  apply List.map_congr_left
+  intro c _
+  by_cases h : c = '-'
+  · subst h; decide
+  · simp [h]
+
+theorem normKey_idem (k : String) : normKey (normKey k) = normKey k := by
+  unfold normKey
+  congr 1
+  rw [String.toList_ofList, List.map_map]
+  apply List.map_congr_left
+  intro c _
+  by_cases h : c = '_'
+  · subst h; decide
+  · simp [h]
+
+/-- attribute assignment does not depend on the spelling of the key: for every table, store,
+validator, key and value, `e.font_size = v` and `XMLx(**{'font-size': v})` take the same step -/
+theorem setAttr_spelling (validate : Nat → Values.PyVal → Values.Res) (t : Tbl) (s : Store) (key : String) (v : Values.PyVal) :
+    setAttr validate t s (under key) v = setAttr validate t s key v := by
+  unfold setAttr; rw [normKey_under]
+
+theorem setAttr_normalised (validate : Nat → Values.PyVal → Values.Res) (t : Tbl) (s : Store) (key : String) (v : Values.PyVal) :
+    setAttr validate t s (normKey key) v = setAttr validate t s key v := by
+  unfold setAttr; rw [normKey_idem]
+
+theorem storeGet_storeSet (s : Store) (k : String) (v : Values.PyVal) : storeGet (storeSet s k v) k = some v := by
+  unfold storeGet storeSet
+  split
+  · rename_i h
+    induction s with
+    | nil => simp at h
+    | cons e r ih =>
+      by_cases he : e.1 = k
+      · simp [he]
+      · have : r.any (·.1 == k) = true := by simpa [he] using h
+        simp [he]
+        simpa using ih this
+  · rename_i h
+    have : s.find? (·.1 == k) = none := by
+      rw [List.find?_eq_none]; intro x hx hk; exact h (List.any_eq_true.mpr ⟨x, hx, hk⟩)
+    simp [List.find?_append, this]
+
+/-- read-after-write through either spelling: a successful non-None assignment is what a dot read of
+the same attribute (underscore or hyphen spelling) returns -/
+theorem get_after_set (validate : Nat → Values.PyVal → Values.Res) (t : Tbl) (s s' : Store) (key key' : String) (v : Values.PyVal)
+    (hv : v ≠ .none) (hk : normKey key' = normKey key) (h : setAttr validate t s key v = .ok s') :
+    (match getAttr t s' key' with | .val w => w = v | _ => False) := by
+  unfold setAttr at h
+  cases v with
+  | none => exact absurd rfl hv
+  | _ =>
+    all_goals
+      simp only at h
+      split at h
+      · cases h
+      · split at h
+        · cases h; unfold getAttr; rw [hk, storeGet_storeSet]
+        · cases h
+        · cases h
+
+theorem storeGet_storeDel (s : Store) (k : String) : storeGet (storeDel s k) k = none := by
+  unfold storeGet storeDel
+  have : (s.filter (·.1 != k)).find? (·.1 == k) = none := by
+    rw [List.find?_eq_none]; intro x hx hk
+    have := (List.mem_filter.mp hx).2
+    simp_all
+  simp [this]
+
+/-- assigning None through either spelling removes the attribute: the following read no longer
+returns a value (None for a declared attribute, AttributeError otherwise) -/
+theorem get_after_remove (validate : Nat → Values.PyVal → Values.Res) (t : Tbl) (s : Store) (key key' : String)
+    (hk : normKey key' = normKey key) :
+    ∃ s', setAttr validate t s key .none = .ok s' ∧
+      (match getAttr t s' key' with | .val _ => False | _ => True) := by
+  refine ⟨storeDel s (normKey key), rfl, ?_⟩
+  unfold getAttr; rw [hk, storeGet_storeDel]
+  simp only
+  by_cases hd : (List.any t fun r => String.ofList (List.map (fun c => if (c == '-') = true then '_' else c) r.fst.toList) == key') = true
+  · rw [if_pos hd]; trivial
+  · rw [if_neg hd]; trivial
+
+/-- the premises are met by the two spellings of any key, e.g. `font_size` / `font-size` -/
+example : normKey (under "font-size") = normKey "font-size" ∧ under "font-size" = "font_size" :=
+  ⟨normKey_under _, by decide⟩
+
 /-- underscore spelling and hyphen spelling address the same child / attribute -/
 example : shortcutChildName "xml_display_step" = "display-step" ∧ shortcutClassName "xml_display_step" = "XMLDisplayStep" := by
   decide
@@ -37,3 +133,9 @@ end C15
 #print axioms C15.element_names_no_underscore
 #print axioms C15.attr_names_no_underscore
 #print axioms C15.reserved_collisions
+#print axioms C15.normKey_under
+#print axioms C15.normKey_idem
+#print axioms C15.setAttr_spelling
+#print axioms C15.setAttr_normalised
+#print axioms C15.get_after_set
+#print axioms C15.get_after_remove
